@@ -147,7 +147,9 @@ func verifyUnit(p *Program, u *Unit) (res *UnitResult) {
 		if !used {
 			continue
 		}
-		if ax.Lemma {
+		if ax.Lemma && (strings.HasPrefix(ax.Induct, "upfix ") || strings.HasPrefix(ax.Induct, "up ")) {
+			st.assume(r.upfixConclusion(envA, ax))
+		} else if ax.Lemma {
 			st.assume(r.specBool(envA, ax.C, "lemma "+ax.Name))
 		} else {
 			st.assume(r.specBool(envA, ax.C, "axiom "+ax.Name))
@@ -217,6 +219,11 @@ func (r *UnitRun) assumeNamed(st *State, names []string) {
 				continue
 			}
 			found = true
+			if strings.HasPrefix(ax.Induct, "upfix ") || strings.HasPrefix(ax.Induct, "up ") {
+				st.assume(r.upfixConclusion(env, ax))
+				r.usedLemmas[n] = true
+				continue
+			}
 			st.assume(r.specBool(env, ax.C, "lemma "+ax.Name))
 			if !ax.Lemma {
 				r.assumption("axiom " + ax.Name + ": " + ax.C.Text)
@@ -377,6 +384,34 @@ func verifyLemma(p *Program, ax Axiom) (res *UnitResult) {
 			return Clause{Expr: e, Text: src, Where: ax.C.Where}
 		}
 		var base, step Clause
+		if strings.HasPrefix(ax.Induct, "upfix ") {
+			// induction on k for every fixed value of the body's leading universally quantified variables: the body is
+			// forall ctx. M(ctx, k); base: forall ctx. M(ctx, 0); step: forall k >= 0, ctx. M(ctx, k) => M(ctx, k+1). The induction
+			// hypothesis is then used at the same ctx as the goal (no quantifier instantiation needed).
+			b := strings.TrimPrefix(ax.Induct, "upfix ")
+			tok := "k!ind"
+			e1, err := parser.ParseExpr(fmt.Sprintf("%s(kInd)", b))
+			if err != nil {
+				panic(toolLimit("induct " + ax.Name + ": " + err.Error()))
+			}
+			envK := &SpecEnv{run: r, st: st, old: r.entry, bound: map[string]Val{"kInd": intV(tok)}}
+			full := envK.boolOf(e1)
+			binders, matrix := peelForall(full)
+			matrix = stripPattern(matrix) // an explicit trigger is for the users of the lemma, not for its own proof
+			sub := func(with string) string { return strings.ReplaceAll(matrix, tok, with) }
+			bs := strings.Join(binders, " ")
+			wrap := func(body string) string {
+				if bs == "" {
+					return body
+				}
+				return fmt.Sprintf("(forall (%s) %s)", bs, body)
+			}
+			r.oblige(st, "lemma", "base", wrap(sub("0")), nil, "induction base (k == 0, every context) of "+ax.Name, nil)
+			r.oblige(st, "lemma", "step", fmt.Sprintf("(forall ((k!x Int)) %s)", wrap(implies(and(sx("<=", "0", "k!x"), sub("k!x")), sub("(+ k!x 1)")))), nil, "induction step (k => k+1, same context) of "+ax.Name, nil)
+			r.assumption("induction principle on k (upwards from 0, context fixed) for " + ax.Name + " (base and step are machine-checked; the principle itself is qv's)")
+			r.oblige(st, "canary", "entry", "false", nil, "domain axioms are consistent (must NOT be provable)", nil)
+			return res
+		}
 		if strings.HasPrefix(ax.Induct, "up ") {
 			b := strings.TrimPrefix(ax.Induct, "up ")
 			base = mk(fmt.Sprintf("%s(0)", b))
@@ -508,3 +543,102 @@ func matchPattern(pat, name string) bool {
 
 var _ = ast.Inspect
 var _ = fmt.Sprint
+
+// peelForall splits "(forall (b1) (forall (b2 b3) M))" into the binders [b1 b2 b3] and the matrix M.
+func peelForall(q string) ([]string, string) {
+	var binders []string
+	for {
+		q = strings.TrimSpace(q)
+		if !strings.HasPrefix(q, "(forall (") {
+			return binders, q
+		}
+		// binder list
+		i := len("(forall ")
+		depth := 0
+		j := i
+		for ; j < len(q); j++ {
+			if q[j] == '(' {
+				depth++
+			} else if q[j] == ')' {
+				depth--
+				if depth == 0 {
+					break
+				}
+			}
+		}
+		list := q[i+1 : j] // inside the outer parens of the binder list
+		// split top-level binders "(v S)"
+		d2, start := 0, -1
+		for k := 0; k < len(list); k++ {
+			if list[k] == '(' {
+				if d2 == 0 {
+					start = k
+				}
+				d2++
+			} else if list[k] == ')' {
+				d2--
+				if d2 == 0 && start >= 0 {
+					binders = append(binders, list[start:k+1])
+					start = -1
+				}
+			}
+		}
+		body := strings.TrimSpace(q[j+1:])
+		body = strings.TrimSuffix(body, ")")
+		q = body
+	}
+}
+
+// stripPattern removes a top-level "(! body :pattern (...))" wrapper.
+func stripPattern(m string) string {
+	m = strings.TrimSpace(m)
+	if !strings.HasPrefix(m, "(! ") {
+		return m
+	}
+	inner := m[3:]
+	depth := 0
+	for i := 0; i < len(inner); i++ {
+		switch inner[i] {
+		case '(':
+			depth++
+		case ')':
+			depth--
+		}
+		if depth == 0 && (inner[i] == ')' || inner[i] == ' ') && i > 0 {
+			// end of the first s-expression (the body)
+			if inner[i] == ')' {
+				return inner[:i+1]
+			}
+			return inner[:i]
+		}
+	}
+	return m
+}
+
+// upfixConclusion: the statement an "upfix" induction lemma provides to its users, as ONE quantifier over k and the
+// context variables (so that an explicit trigger of the body may mention all of them):
+//   forall k, ctx. (! (0 <= k => M(ctx, k)) :pattern P)
+func (r *UnitRun) upfixConclusion(env *SpecEnv, ax Axiom) string {
+	b := strings.TrimPrefix(strings.TrimPrefix(ax.Induct, "upfix "), "up ")
+	e1, err := parser.ParseExpr(fmt.Sprintf("%s(kInd)", b))
+	if err != nil {
+		panic(toolLimit("induct " + ax.Name + ": " + err.Error()))
+	}
+	qcount++
+	kv := fmt.Sprintf("k!q%d", qcount)
+	envK := &SpecEnv{run: r, st: env.st, old: env.old, bound: map[string]Val{"kInd": intV(kv)}}
+	full := envK.boolOf(e1)
+	binders, matrix := peelForall(full)
+	pat := ""
+	if strings.HasPrefix(strings.TrimSpace(matrix), "(! ") {
+		if i := strings.LastIndex(matrix, ":pattern"); i >= 0 {
+			pat = strings.TrimSuffix(strings.TrimSpace(matrix[i:]), ")")
+		}
+		matrix = stripPattern(matrix)
+	}
+	body := implies(sx("<=", "0", kv), matrix)
+	if pat != "" {
+		body = fmt.Sprintf("(! %s %s)", body, pat)
+	}
+	return fmt.Sprintf("(forall ((%s Int) %s) %s)", kv, strings.Join(binders, " "), body)
+}
